@@ -1,13 +1,14 @@
 from common import ENUMX_ASSUME
 
+# packages whose hand-over paths are clean on the unchanged tree first (mc selftest prints the first violation)
 _PKGS = {
-    'core/dutydb': 'TestVerifC18DutyDB',
     'core/parsigdb': 'TestVerifC18ParSigDB',
     'core/aggsigdb': 'TestVerifC18AggSigDB',
     'core/sigagg': 'TestVerifC18SigAgg',
     'core/scheduler': 'TestVerifC18Scheduler',
     'core/fetcher': 'TestVerifC18Fetcher',
     'core/validatorapi': 'TestVerifC18VAPI',
+    'core/dutydb': 'TestVerifC18DutyDB',
     'core/parsigex': 'TestVerifC18ParSigEx',
     'core/consensus/qbft': 'TestVerifC18Consensus',
 }
@@ -18,9 +19,38 @@ CHECK = {'pkgs': list(_PKGS),
  'run': dict(_PKGS),
  'level': 'exploration',
  'engine': 'enumx',
- 'technique': 'tbd',
- 'claim': 'tbd',
- 'trusted': 'tbd',
- 'rule': 'tbd',
+ 'technique': 'exhaustive enumeration of (hand-over path x value type x fork version) against the real components, each unit judged by two '
+              'oracles from zzverif/alias: (i) alias walker - every pointer target, slice backing array (capacity > 0) and map reachable from '
+              'a value is collected as an address range by reflection + unsafe (strings, interface boxes, zero-size objects, time.Time and '
+              'protobuf bookkeeping are skipped); the ranges of every two parties of the scenario {value handed in, memory held privately by '
+              'the component (reached through unexported fields), value returned to each reader, argument of each subscriber} must not '
+              'overlap; (ii) twin-world differential - the scenario is executed once without harness-side mutation and once per mutation '
+              'class (the caller overwrites every leaf of what it handed in after the call returned / every reader overwrites every leaf of '
+              'its result right after receiving it / every subscriber overwrites every leaf of its argument inside the callback); the canonical '
+              'digest of every observation (later results, later subscribers\' arguments, store content, nil-ness of errors) must equal the one '
+              'of the unmutated execution, which started from a reflection deep copy of the same value',
+ 'claim': 'paths: dutydb Store -> AwaitAttestation (also the committee-index-0 alias) / AwaitProposal / AwaitAggAttestation / AwaitSyncContribution '
+          '/ PubKeyByAttestation, each with a reader blocked before the Store and two later readers, and the private maps; parsigdb StoreInternal and '
+          'StoreExternal with threshold 2, three internal and three threshold subscribers and the private entries map; aggsigdb MemDB (with its Run '
+          'goroutine) and MemDBV2 Store -> Await by a waiting and two later readers and the private data map; sigagg Aggregate (real 2-of-3 threshold '
+          'BLS partials, accepting verify function) with three subscribers; scheduler scheduleSlot duty fan-out with three subscribers and '
+          'GetDutyDefinition twice (definitions placed into the private duties map); fetcher Fetch for attester / proposer / aggregator / sync '
+          'contribution (old and v1.11 plural encoding) with stub beacon node and three subscribers, and FetchOnly + Fetch through the early-fetch '
+          'cache; validatorapi (insecure constructor) SubmitAttestations, SubmitAggregateAttestations, SubmitProposal (full and blinded), '
+          'SubmitBlindedProposal, SubmitVoluntaryExit, BeaconCommitteeSelections, SyncCommitteeSelections, SubmitSyncCommitteeMessages, '
+          'SubmitSyncCommitteeContributions, Proposal (randao) with two subscribers; parsigex handle with two subscribers; consensus Decide callback '
+          'with two Subscribe and two SubscribePriority subscribers. Value alphabet from the testutil generators / core constructors: AttestationData, '
+          'VersionedProposal and VersionedSignedProposal (full and blinded), VersionedAggregatedAttestation, VersionedAttestation, '
+          'VersionedSignedAggregateAndProof, legacy AggregatedAttestation and SignedAggregateAndProof, SyncContribution(s), exit, registration, randao, '
+          'beacon / sync committee selection, sync message, (signed) contribution and proof, Signature; attester / proposer / sync committee duty '
+          'definitions. Quick: latest fork (fulu) per versioned type; thorough: phase0..fulu. Every violation is re-run twice and must give the same verdict',
+ 'trusted': 'reflection walker / digest / deep copy of zzverif/alias (they do not use charon\'s Clone or codecs); testutil Random* generators as value '
+            'alphabet; noop deadliner; signature verification and duty gating are switched off or stubbed to accept (not part of C18); the beacon node\'s '
+            'response objects are owned by the fetcher and are not a party; SubmitProposal phase0/altair is refused by go-eth2-client ("unsupported '
+            'version") and recorded as not evaluated',
+ 'rule': 'one evaluation = one scenario of one (path, type/version) unit under one oracle (alias or one mutation class); distinct = path x oracle',
  'budget_s': {'quick': 100, 'thorough': 1500}}
-CHECK["assumptions"] = ENUMX_ASSUME
+CHECK["assumptions"] = ENUMX_ASSUME + [
+    "one generated instance per type and version, single-validator sets; fixed order waiting reader -> store -> overwrite -> read -> overwrite -> read",
+    "concurrent readers (data races on shared memory) are the subject of the free-running -race pass, not of this check",
+]
